@@ -29,7 +29,7 @@ FREQS = ["D", "B", "W-FRI", "13h", "2D"]
 
 
 def plan(tier):
-    n = 1500 if tier == "quick" else 60000
+    n = 1500 if tier == "quick" else 24000
     return [dict(unit="random", n=n, builds=["py"], case_timeout=120),
             dict(unit="enum", n=len(YEAR_STARTS) * len(FREQS), builds=["py"], fixed_n=True, case_timeout=300, chunk=3)]
 
